@@ -156,6 +156,34 @@ func (m c15) Run(ctx *core.Ctx) {
 		ctx.Begin(cs)
 		m.Exec(ctx, cs)
 	}
+	// reporting is neutral under ANY configuration: X and X + reporting agree in success and result
+	// (parser options and canonicalization options alike; fail-on-validation-error is left out of X,
+	// it has its own clauses)
+	for i := int64(0); i < nc; i++ {
+		var cfg []string
+		for _, o := range randomConfig(r) {
+			if o != "report" && o != "failonerr" && !strings.HasPrefix(o, "profile:") {
+				cfg = append(cfg, o)
+			}
+		}
+		if len(cfg) == 0 || r.IntN(3) == 0 {
+			cfg = composedConfig(r.IntN(96))
+		}
+		in := gen.Input(r)
+		switch r.IntN(4) {
+		case 0:
+			in = gen.Pick(r, []string{"foo://", "http://", "sc://", "a://"}) + gen.PercentEncodeSome(r, gen.PercentEncodeSome(r, gen.Host(r), 0.3), 0.3) + "/" + gen.PathSeg(r)
+		case 1:
+			in = gen.Web(r).Spell(r, gen.AllVariations)
+		}
+		cs := &core.Case{Check: "report-neutral", Input: core.S(in), Config: cfg}
+		if r.IntN(4) == 0 {
+			cs.Base, cs.HasBase = core.S(gen.ParseableBase(r)), true
+			cs.Input = core.S(gen.Reference(r))
+		}
+		ctx.Begin(cs)
+		m.Exec(ctx, cs)
+	}
 	for i := int64(0); i < n; i++ {
 		in := gen.Input(r)
 		if r.IntN(4) == 0 {
@@ -239,6 +267,33 @@ func (m c15) Exec(ctx *core.Ctx, cs *core.Case) {
 	}
 	if cs.Check == "shared-base" {
 		m.sharedBase(ctx, cs, doc)
+		return
+	}
+	if cs.Check == "report-neutral" {
+		p0 := buildParser(cs.Config)
+		p1 := buildParser(append(append([]string{}, cs.Config...), "report"))
+		in, base := string(cs.Input), string(cs.Base)
+		hasBase := cs.HasBase && base != ""
+		u0, e0, pan0 := parseImpl(ctx, p0, in, base, hasBase, false)
+		u1, e1, pan1 := parseImpl(ctx, p1, in, base, hasBase, false)
+		if pan0 != nil || pan1 != nil {
+			ctx.Count("panics(C02)")
+			return
+		}
+		ok0, ok1 := e0 == nil && u0 != nil, e1 == nil && u1 != nil
+		if ok0 || ok1 {
+			ctx.Nontrivial()
+		}
+		ctx.Count("report_neutral_cases")
+		if ok0 != ok1 {
+			ctx.Violate("turning on validation-error reporting changed whether parsing succeeds (under a configuration)", fmt.Sprint(ok0, " ", errString(e0)), fmt.Sprint(ok1, " ", errString(e1)), strings.Join(cs.Config, ","))
+			return
+		}
+		if ok0 {
+			if a, b := obs.Take(u0), obs.Take(u1); a != b {
+				ctx.Violate("turning on validation-error reporting changed the result (under a configuration)", a.Href, b.Href, strings.Join(cs.Config, ",")+": "+strings.Join(obs.Diff(a, b), "; "))
+			}
+		}
 		return
 	}
 	if cs.Check == "entries-config" {
